@@ -253,7 +253,10 @@ class Check:
                 # a deviation action that is not listed as known can only fire if the switch is on
                 self.violation(f"deviation {sw} observed but not listed as a known finding", {"switch": sw})
                 continue
-            lines.append(f"KNOWN-FINDING: property={f['property']} {f['id']}: {f['what']} [{n} case(s)]")
+            if self.prop != f["property"] and self.prop not in f.get("also", []):
+                self.violation(f"finding {f['id']} is not listed for property {self.prop}", {"switch": sw})
+                continue
+            lines.append(f"KNOWN-FINDING: property={self.prop} {f['id']}: {f['what']} [{n} case(s)]")
         vio_lines = []
         for i, (msg, replay) in enumerate(self.violations[:20]):
             path = os.path.join(ROOT, "evidence", "replays", f"{self.prop}-{i}.json")
